@@ -115,6 +115,16 @@ func (x *Exec) execInstr(bc *blockCtx, in ssa.Instruction) ([]*Edge, bool) {
 				x.rangeFacts(t, i.Type(), bc.reach, 1)
 			}
 			x.oldRefFacts(t, i.Type())
+			if g, ok := i.X.(*ssa.Global); ok {
+				// trusted facts about package-level variables (e.g. io.EOF is non-nil)
+				if gc := x.prog.Contracts.Funcs[normalizeFuncName(g.Pkg.Pkg.Path()+"."+g.Name())]; gc != nil && gc.Kind == "global" {
+					ce := &CEnv{x: x, st: bc.st, old: bc.st, vars: map[string]*Val{"value": val}, guard: bc.reach, fc: gc, pkg: g.Pkg}
+					for _, e := range gc.Ensures {
+						x.assume(bc.reach, x.evalBool(ce, e))
+					}
+					x.note("trusted fact about global " + g.Pkg.Pkg.Path() + "." + g.Name())
+				}
+			}
 			set(i, val)
 		case token.SUB:
 			v := x.term(bc, i.X)
@@ -160,6 +170,23 @@ func (x *Exec) execInstr(bc *blockCtx, in ssa.Instruction) ([]*Edge, bool) {
 	case *ssa.BinOp:
 		a := x.valueIn(fr, bc.env, i.X)
 		c := x.valueIn(fr, bc.env, i.Y)
+		if i.Op == token.EQL || i.Op == token.NEQ {
+			// comparison with the nil constant: "is nil" rather than structural equality
+			var other *Val
+			if isNilSSA(i.Y) {
+				other = a
+			} else if isNilSSA(i.X) {
+				other = c
+			}
+			if other != nil {
+				eq := x.isNil(other)
+				if i.Op == token.NEQ {
+					eq = x.b.Not(eq)
+				}
+				set(i, &Val{Typ: i.Type(), T: eq})
+				return nil, false
+			}
+		}
 		set(i, x.binop(bc, in, i.Op, a, c, i.X.Type(), i.Type()))
 		return nil, false
 
@@ -862,4 +889,19 @@ func (x *Exec) oldRefFacts(t *smt.Term, typ types.Type) {
 	case *types.Interface:
 		x.axiom(x.b.Cmp("<", x.b.App("i_ref", "Int", t), a0))
 	}
+}
+
+func isNilSSA(v ssa.Value) bool {
+	c, ok := v.(*ssa.Const)
+	if !ok || c.Value != nil {
+		return false
+	}
+	switch c.Type().Underlying().(type) {
+	case *types.Pointer, *types.Interface, *types.Slice, *types.Map, *types.Signature, *types.Chan:
+		return true
+	}
+	if b, ok := c.Type().(*types.Basic); ok && b.Kind() == types.UntypedNil {
+		return true
+	}
+	return false
 }
